@@ -84,6 +84,15 @@ impl Filter {
         output: &'a mut [u8],
     ) -> Result<&'a Filter, Error> {
         let length = Self::output_size_needed(ids, authors, kinds, tags);
+        // the counts are stored as u16 and the length as u32
+        for count in [ids.len(), authors.len(), kinds.len()] {
+            if count > u16::MAX as usize {
+                return Err(InnerError::OutOfRange(count).into());
+            }
+        }
+        if length > u32::MAX as usize {
+            return Err(InnerError::OutOfRange(length).into());
+        }
         if output.len() < length {
             return Err(InnerError::BufferTooSmall(length).into());
         }
@@ -873,7 +882,10 @@ fn parse_json_filter(input: &[u8], output: &mut [u8]) -> Result<(usize, usize), 
                 None => return Err(InnerError::BufferTooSmall(end).into()),
             };
             read_id(input, &mut inpos, slot)?;
-            num_ids += 1;
+            num_ids = match num_ids.checked_add(1) {
+                Some(n) => n,
+                None => return Err(InnerError::OutOfRange(65536).into()),
+            };
             end += ID_SIZE;
         }
 
@@ -895,7 +907,10 @@ fn parse_json_filter(input: &[u8], output: &mut [u8]) -> Result<(usize, usize), 
                 None => return Err(InnerError::BufferTooSmall(end).into()),
             };
             read_pubkey(input, &mut inpos, slot)?;
-            num_authors += 1;
+            num_authors = match num_authors.checked_add(1) {
+                Some(n) => n,
+                None => return Err(InnerError::OutOfRange(65536).into()),
+            };
             end += PUBKEY_SIZE;
         }
 
@@ -923,7 +938,10 @@ fn parse_json_filter(input: &[u8], output: &mut [u8]) -> Result<(usize, usize), 
                 );
             }
             put(output, end, (u as u16).to_ne_bytes().as_slice())?;
-            num_kinds += 1;
+            num_kinds = match num_kinds.checked_add(1) {
+                Some(n) => n,
+                None => return Err(InnerError::OutOfRange(65536).into()),
+            };
             end += KIND_SIZE;
         }
 
@@ -990,13 +1008,19 @@ fn parse_json_filter(input: &[u8], output: &mut [u8]) -> Result<(usize, usize), 
                 put(output, end, (outlen as u16).to_ne_bytes().as_slice())?;
                 end += 2 + outlen;
                 inpos += inlen + 1;
-                count += 1;
+                count = match count.checked_add(1) {
+                    Some(n) => n,
+                    None => return Err(InnerError::OutOfRange(65536).into()),
+                };
             }
 
             // write count
             put(output, countindex, count.to_ne_bytes().as_slice())?;
         }
-        // write length of tags section
+        // write length of tags section (lengths and offsets within it are stored as u16)
+        if end - write_tags_start > u16::MAX as usize {
+            return Err(InnerError::OutOfRange(end - write_tags_start).into());
+        }
         put(
             output,
             write_tags_start,
